@@ -13,7 +13,7 @@ struct C15 : Prop {
 		return "plan = generated worlds up to three address levels (nested interfaces, unknown unique-ids, configured-but-absent boards); optional node-table change of an "
 		       "unconfigured node in the middle of the start-up enumeration (the interface then answers GETNEXT with NODETAB_COUNT: restart), or an unconfigured hub with configured "
 		       "boards beneath it logging in while another sub-interface's table is read (announced by MSG_NODE_NEW only); afterwards 1-10 node-lost / "
-		       "node-new notices (leaf boards, interfaces with children, re-login at another address, unknown ids, absent boards logging in), each followed by commands "
+		       "node-new notices (leaf boards, interfaces with children, re-login at another address, unknown ids, absent boards logging in, repeated notices), each followed by commands "
 		       "to every board. Oracle: connectivity model (connected(b), address = announcing interface's address extended by the local address, lost interface "
 		       "disconnects everything beneath it) compared with bidib_get_boards_connected / bidib_get_board_connected / bidib_get_nodeaddr after every notice; "
 		       "exactly one NODE_CHANGED_ACK with the announced version to the announcing node on the wire when the notice is known processed (no flush by the harness); "
@@ -111,6 +111,8 @@ struct C15 : Prop {
 				}
 				ns[k].present = true;
 			}
+			// the interface repeats a notice whose acknowledgement it missed (same or next sequence number): must change nothing
+			if (r.chance(250)) { J fs = J::arr(); J f = J::obj(); f.set("kind", "dup"); f.set("a", (int) r.below(2)); fs.push(f); e.set("faults", fs); }
 			ev.push(e);
 			ph.set("bus", ev); ph.set("check", true);
 			// commands to every board afterwards
